@@ -9,7 +9,10 @@ FewChunkings == {<<0>>, <<1>>, <<64>>, <<1, 64>>, <<63, 1, 65>>, <<0, 0, 2>>, <<
 Ch == IF Chunkings = "all" THEN AllChunkings ELSE FewChunkings
 HW == {[k |-> "hw", algs |-> a, single |-> s, chunks |-> c, seed |-> 7] :
           a \in AlgSeqs, s \in BOOLEAN, c \in Ch} 
-HWok == {v \in HW : v.single => Len(v.algs) = 1}
+\* the same through io.WriteString (a writer may offer a WriteString method of its own)
+HWs == {[k |-> "hw", algs |-> a, single |-> s, chunks |-> c, seed |-> 9, as_string |-> TRUE] :
+          a \in {<<"sha256">>, <<"md5", "sha512">>, <<"sha1", "md5", "sha256", "sha512">>}, s \in BOOLEAN, c \in FewChunkings}
+HWok == {v \in HW \cup HWs : v.single => Len(v.algs) = 1}
 Bufs == {<<1>>, <<200>>, <<1, 1, 1>>, <<2, 64, 200, 200>>, <<64, 64, 64, 64>>, <<3, 200>>}
 \* the source may deliver its last bytes together with io.EOF ("dataerr"), one byte per call, or half a buffer
 HR == {[k |-> "hr", algs |-> a, single |-> s, chunks |-> c, total |-> t, seed |-> 11, src |-> "plain"] :
@@ -30,9 +33,9 @@ VerSeqs == {[k |-> "verifier_seq", steps |-> <<St(a, src, "equal"), St(a, src, "
            \cup {[k |-> "verifier_seq", steps |-> <<St("md5", "hasher", "unequal"), St("md5", "hasher", "equal"), St("sha1", "hasher", "unequal"), St("sha1", "hasher", "equal")>>]}
 \* one hasher, every sequence of up to LifeLen operations: write 1 / 63 / 65 / 129 bytes, Sum through the pointer,
 \* entry built from the hasher by value - the hasher is used again after each
-LifeOps == {[op |-> "w", n |-> n] : n \in {1, 63, 65, 129}} \cup {[op |-> "s", n |-> 0], [op |-> "e", n |-> 0]}
+LifeOps == {[op |-> "w", n |-> n] : n \in {1, 63, 65, 129}} \cup {[op |-> "ws", n |-> 7]} \cup {[op |-> "s", n |-> 0], [op |-> "e", n |-> 0]}
 LifeSeqs == UNION {[1..m -> LifeOps] : m \in 2..LifeLen}
 Life == {[k |-> "hasher_life", alg |-> a, ops |-> o] : a \in Algs,
-            o \in {q \in LifeSeqs : \E i \in 1..Len(q) : q[i].op # "w"}}
+            o \in {q \in LifeSeqs : \E i \in 1..Len(q) : q[i].op \in {"s", "e"}}}
 ASSUME Emit(SetToSeq(HWok \cup HRok \cup Ver) \o SetToSeq(VerSeqs) \o SetToSeq(Life))
 =============================================================================
